@@ -282,7 +282,13 @@ func (n *WorkflowNode) AddDependency(fromNodeKey string) *WorkflowNode {
 // Example:
 //
 //	node.SetStaticValue(FieldPath{"query"}, "static query")
+//
+// Once the workflow has been compiled the call has no effect: a compiled workflow can no longer
+// be modified, and a later Compile must not pick up values that an earlier one did not see.
 func (n *WorkflowNode) SetStaticValue(path FieldPath, value any) *WorkflowNode {
+	if n.g.compiled {
+		return n
+	}
 	n.staticValues[path.join()] = value
 	return n
 }
